@@ -194,6 +194,27 @@ func (w *world) crashReopen() {
 	w.openRS()
 }
 
+// brokenDB is a closed LevelDB handle: every write to it fails (one per process).
+var brokenDB *kv.LeveldbKV
+
+// flushWhileWriteFails calls Storage.Flush while the LevelDB of the region storage rejects
+// writes (the exported embedded handle is swapped for a closed one for the duration of the call).
+func (w *world) flushWhileWriteFails() error {
+	if brokenDB == nil {
+		db, err := kv.NewLeveldbKV(newScratch())
+		if err != nil {
+			panic(fmt.Sprintf("INFRA: broken leveldb: %v", err))
+		}
+		db.Close()
+		brokenDB = db
+	}
+	healthy := w.rs.LeveldbKV
+	w.rs.LeveldbKV = brokenDB
+	err := w.st.Flush()
+	w.rs.LeveldbKV = healthy
+	return err
+}
+
 func (w *world) destroy() {
 	if w.backend == "rs" && w.rs != nil {
 		w.cancel()
